@@ -24,6 +24,26 @@ static struct urcu_poll_worker_state poll_worker_gp_state = {
 	.lock = PTHREAD_MUTEX_INITIALIZER,
 };
 
+#ifdef URCU_VERIF
+/*
+ * Verification hook: fast-forward the polling grace-period counter, as if
+ * `id` polled grace periods had already completed with no poll in flight.
+ * Only valid while the worker is inactive (no outstanding handle).
+ */
+#define urcu_verif_poll_name__(f)	f ## _verif_set_gp_id
+#define urcu_verif_poll_name_(f)	urcu_verif_poll_name__(f)
+void urcu_verif_poll_name_(start_poll_synchronize_rcu)(unsigned long id);
+void urcu_verif_poll_name_(start_poll_synchronize_rcu)(unsigned long id)
+{
+	mutex_lock(&poll_worker_gp_state.lock);
+	if (!poll_worker_gp_state.active) {
+		poll_worker_gp_state.current_state.grace_period_id = id;
+		poll_worker_gp_state.latest_target.grace_period_id = id;
+	}
+	mutex_unlock(&poll_worker_gp_state.lock);
+}
+#endif
+
 static
 void urcu_poll_worker_cb(struct rcu_head *head __attribute__((__unused__)))
 {
